@@ -42,18 +42,40 @@ pub fn ascii_of_tok(t: &str) -> String {
 }
 
 /// Runs `f` on every input line, writing one output line per input line.
-/// A panic inside `f` becomes the line `panic <location>`.
+/// A panic inside `f` becomes the line `panic <message>`.
+/// Stdout is not kept locked, so code under test that prints to stdout cannot dead-lock; use
+/// `run_lines_marked` when it does print, so that the orchestrator can tell the lines apart.
 pub fn run_lines(f: impl Fn(&[&str]) -> String + std::panic::RefUnwindSafe) {
+    run_lines_with("", f);
+}
+/// Like `run_lines`, but every observation line starts with "@@"; all other stdout lines are
+/// ignored by the orchestrator.
+pub fn run_lines_marked(f: impl Fn(&[&str]) -> String + std::panic::RefUnwindSafe) {
+    run_lines_with("@@", f);
+}
+fn run_lines_with(mark: &str, f: impl Fn(&[&str]) -> String + std::panic::RefUnwindSafe) {
     std::panic::set_hook(Box::new(|_| {}));
     let stdin = std::io::stdin();
-    let stdout = std::io::stdout();
-    let mut out = std::io::BufWriter::new(stdout.lock());
+    let mut pending = String::new();
+    let flush = |pending: &mut String| {
+        if !pending.is_empty() {
+            let stdout = std::io::stdout();
+            let mut lock = stdout.lock();
+            lock.write_all(pending.as_bytes()).unwrap();
+            lock.flush().unwrap();
+            pending.clear();
+        }
+    };
     for line in stdin.lock().lines() {
         let line = line.unwrap();
         let toks: Vec<&str> = line.split_ascii_whitespace().collect();
+        if !mark.is_empty() {
+            // code under test may print: never hold buffered output across a call
+            flush(&mut pending);
+        }
         let res = std::panic::catch_unwind(|| f(&toks));
-        match res {
-            Ok(s) => writeln!(out, "{s}").unwrap(),
+        let out = match res {
+            Ok(s) => s,
             Err(e) => {
                 let msg = if let Some(s) = e.downcast_ref::<String>() {
                     s.clone()
@@ -63,8 +85,56 @@ pub fn run_lines(f: impl Fn(&[&str]) -> String + std::panic::RefUnwindSafe) {
                     "?".to_string()
                 };
                 let msg: String = msg.chars().map(|c| if c.is_ascii_graphic() { c } else { '_' }).take(80).collect();
-                writeln!(out, "panic {msg}").unwrap()
+                format!("panic {msg}")
             }
+        };
+        if !mark.is_empty() {
+            // start on a fresh line in case the code under test left a partial one
+            pending.push('\n');
+        }
+        pending.push_str(mark);
+        pending.push_str(&out);
+        pending.push('\n');
+        if pending.len() > 1 << 16 {
+            flush(&mut pending);
         }
     }
+    flush(&mut pending);
+}
+
+/// FNV-1a 64-bit, used to compare large byte strings by digest on both sides.
+pub fn fnv64(data: &[u8]) -> u64 {
+    let mut h: u64 = 0xcbf29ce484222325;
+    for b in data {
+        h ^= u64::from(*b);
+        h = h.wrapping_mul(0x100000001b3);
+    }
+    h
+}
+/// Short canonical rendering of a byte string: hex when small, length + digest otherwise.
+pub fn digest_tok(data: &[u8]) -> String {
+    if data.len() <= 64 {
+        format!("{}:{}", data.len(), tok_of_bytes(data))
+    } else {
+        format!("{}:h{:016x}", data.len(), fnv64(data))
+    }
+}
+/// Token "g<len>,<seed>" -> pseudo-random bytes (LCG), "x.." -> literal bytes; several tokens
+/// joined with '+' are concatenated.
+pub fn expand_bytes(tok: &str) -> Vec<u8> {
+    let mut out = Vec::new();
+    for part in tok.split('+') {
+        if let Some(rest) = part.strip_prefix('g') {
+            let mut it = rest.split(',');
+            let len: usize = it.next().unwrap().parse().unwrap();
+            let mut s: u64 = it.next().unwrap().parse().unwrap();
+            for _ in 0..len {
+                s = s.wrapping_mul(6364136223846793005).wrapping_add(1442695040888963407);
+                out.push(b'a' + ((s >> 33) % 26) as u8);
+            }
+        } else {
+            out.extend(bytes_of_tok(part));
+        }
+    }
+    out
 }
